@@ -100,6 +100,7 @@ META["C02"] = dict(
     "container: (container kind, element type, per-element accept vector, channel); union: (member set, channel, value) over "
     "all (thorough) / 6 (quick) permutations. Distinct = hash of that tuple; non-trivial = the parser reached a decision.",
     gates={
+        "st.union.dataclass_next_to_class_containers": g(60, 600),
         "mon.a.castable_respelling": g(500, 5000), "st.union.sibling_containers": g(200, 2000),
         "mon.a.boundary_conformance": g(3000, 30000),
         "mon.a.internal_contract": g(10000, 100000),
